@@ -6,6 +6,7 @@
 package auditlog
 
 import (
+	"fmt"
 	"io"
 	"io/fs"
 	"log"
@@ -83,20 +84,27 @@ func (cl concurrentWriter) Write(al plugintypes.AuditLog) error {
 	cl.mux.Lock()
 	defer cl.mux.Unlock()
 
-	cl.log.Printf("%s %s - - [%s]", al.Transaction().ClientIP(), al.Transaction().HostIP(), al.Transaction().Timestamp())
+	// Output, unlike Printf, reports the error of the underlying write
+	var indexErr error
+	printf := func(format string, v ...any) {
+		if err := cl.log.Output(2, fmt.Sprintf(format, v...)); err != nil && indexErr == nil {
+			indexErr = err
+		}
+	}
+	printf("%s %s - - [%s]", al.Transaction().ClientIP(), al.Transaction().HostIP(), al.Transaction().Timestamp())
 	if al.Transaction().HasRequest() {
-		cl.log.Printf(
+		printf(
 			` "%s %s %s"`,
 			al.Transaction().Request().Method(),
 			al.Transaction().Request().URI(),
 			al.Transaction().Request().HTTPVersion())
 	}
 	if al.Transaction().HasResponse() {
-		cl.log.Printf(` %d`, al.Transaction().Response().Status())
+		printf(` %d`, al.Transaction().Response().Status())
 	}
-	cl.log.Printf("%s - %s\n", al.Transaction().ID(), filepath)
+	printf("%s - %s\n", al.Transaction().ID(), filepath)
 
-	return nil
+	return indexErr
 }
 
 var _ plugintypes.AuditLogWriter = (*concurrentWriter)(nil)
